@@ -28,6 +28,7 @@ from typing import Any
 
 import numpy as np
 
+from harness import c18_corr as C
 from harness import c18_lib as L
 from harness import common
 from harness.common import F
@@ -484,7 +485,7 @@ class Obs(dict):
     pass
 
 
-def check_reg(case: dict[str, Any], res: Result | None = None, deep: bool = True) -> list[tuple[str, str]]:
+def check_reg(case: dict[str, Any], res: Result | None = None, deep: bool = True, corr: C.Corr | None = None) -> list[tuple[str, str]]:
     """Run the real code on the case and return the violated clauses [(key, message)]."""
     bad: list[tuple[str, str]] = []
     tag = reg_tag(case)
@@ -588,6 +589,10 @@ def check_reg(case: dict[str, Any], res: Result | None = None, deep: bool = True
                 break
         if shape_ok:
             for k, (q, J) in enumerate(zip(Q, J1)):
+                if case["algo"] == "MOERegressor" and not moe_stencil_in_one_cluster(model, q):
+                    # a hard mixture of experts is not differentiable across a cluster boundary
+                    count("moe-boundary-skipped")
+                    continue
                 ref, dis = L.fd_reference(model.predict, q)
                 if not L.finite(ref):
                     count("fd-nonfinite")
@@ -641,10 +646,74 @@ def check_reg(case: dict[str, Any], res: Result | None = None, deep: bool = True
             pass
         except Exception as e:  # noqa: BLE001
             bad.append((f"crash-jacobian-dict:{tag}:{type(e).__name__}", f"predict_jacobian with a dictionary raised {type(e).__name__}: {str(e)[:200]}"))
+    # ---- correspondence with the Lean model (chain rule of the wrapper, linear/polynomial/RBF cores, name splitting)
+    if corr is not None and not bad and len(Q):
+        try:
+            add_reg_lines(corr, case, model, Q, P1, J1, Jd, sizes, dout, din)
+        except Exception as e:  # noqa: BLE001
+            if res is not None:
+                res.notes.append(f"could not build the protocol line of a regressor case: {e!r}")
     # ---- surrogate discipline
     if deep:
         bad += check_surrogate(case, model, Q, sizes, tag, J1 is not None, count)
     return bad
+
+
+def add_reg_lines(corr: C.Corr, case, model, Q, P1, J1, Jd, sizes, dout: int, din: int) -> None:
+    algo = case["algo"]
+    ctx = {"stream": "regressor", "case": case, "what": reg_tag(case)}
+    jac_ok = J1 is not None and all(J.shape == (dout, din) for J in J1)
+    if algo in ("LinearRegressor", "PolynomialRegressor"):
+        trs = model.transformer
+        if all(k in ("inputs", "outputs") for k in trs):
+            tin, tout = C.fitted_pipe(trs.get("inputs")), C.fitted_pipe(trs.get("outputs"))
+            if tin is not None and tout is not None:
+                W = np.asarray(model.coefficients, dtype=float)
+                b = np.asarray(model.intercept, dtype=float).ravel()
+                for k, q in enumerate(Q[:2]):
+                    z = trs["inputs"].transform(q) if "inputs" in trs else q
+                    if algo == "LinearRegressor":
+                        line = f"lin tin={tin} tout={tout} W={C.rmat(W)} b={C.rvec(b)} x={C.rvec(q)}"
+                    else:
+                        pw = C.poly_powers(len(z), int(case["opts"]["degree"]))
+                        line = f"poly tin={tin} tout={tout} P={';'.join(','.join(str(int(v)) for v in r) for r in pw)} C={C.rmat(W)} b={C.rvec(b)} x={C.rvec(q)}"
+                    corr.add(line, C.reg_compare(P1[k], J1[k] if jac_ok else None, C.TWO30), ctx)
+    if algo == "RBFRegressor" and case.get("tr") == {} and case["opts"].get("function") in L.KERNELS:
+        from gemseo.mlearning.regression.algos.rbf import RBFRegressor
+
+        rbf = model.algo
+        nodes = np.asarray(rbf.nodes, dtype=float).reshape(rbf.xi.shape[1], -1)
+        avg = np.broadcast_to(np.asarray(model.y_average, dtype=float), (dout,))
+        scale = max(Fraction(1), L.max_abs(nodes) * len(nodes))
+        for k, q in enumerate(Q[:2]):
+            line = (
+                f"rbf k={model.function} eps={C.bits(rbf.epsilon)} tol={C.bits(RBFRegressor.RBFDerivatives.TOL)} "
+                f"C={C.bmat(rbf.xi.T)} W={C.bmat(nodes)} avg={C.bvec(avg)} x={C.bvec(q)}"
+            )
+            corr.add(line, C.rbf_compare(P1[k], J1[k] if jac_ok else None, C.TWO30, scale), ctx)
+    if Jd is not None and jac_ok:
+        outs, ins = list(model.output_names), list(model.input_names)
+        line = f"split out={','.join(str(sizes[o]) for o in outs)} in={','.join(str(sizes[i]) for i in ins)} J={C.rmat(J1[0])}"
+        corr.add(line, C.split_compare(Jd, outs, ins, sizes), ctx)
+
+
+def moe_stencil_in_one_cluster(model, q, h: float = 2.0**-6) -> bool:
+    """Guard only (can never raise a violation): all points of the difference stencil get the same label."""
+    try:
+        pts = [q]
+        for j in range(len(q)):
+            for sgn in (-1.0, 1.0):
+                p = q.copy()
+                p[j] += sgn * h
+                pts.append(p)
+        pts = np.stack(pts)
+        tr = model.transformer.get("inputs")
+        if tr is not None:
+            pts = tr.transform(pts)
+        labels = np.asarray(model.classifier.predict(pts)).ravel()
+        return bool(np.all(labels == labels[0]))
+    except Exception:  # noqa: BLE001
+        return False
 
 
 def check_surrogate(case, model, Q, sizes, tag, has_jac, count) -> list[tuple[str, str]]:
@@ -867,7 +936,7 @@ def fit_sequentially(spec, X, Y2=None):
     return Seq(), data
 
 
-def check_tr(case: dict[str, Any], res: Result | None = None) -> list[tuple[str, str]]:
+def check_tr(case: dict[str, Any], res: Result | None = None, corr: C.Corr | None = None) -> list[tuple[str, str]]:
     bad: list[tuple[str, str]] = []
     spec = case["spec"]
     tag = tr_tag_of(spec)
@@ -946,6 +1015,21 @@ def check_tr(case: dict[str, Any], res: Result | None = None) -> list[tuple[str,
             except Exception as e:  # noqa: BLE001
                 bad.append((f"crash-transformer:{tag}:{type(e).__name__}", f"compute_jacobian(_inverse) raised {type(e).__name__}: {str(e)[:200]}"))
                 break
+    if corr is not None and not bad and "Y2" not in case:
+        try:
+            pipe = C.unfitted_pipe(spec, t)
+            if pipe is not None:
+                for x in pts[1:4]:
+                    z = t.transform(x.copy())
+                    xb = t.inverse_transform(np.asarray(z).copy()) if lossless else None
+                    J = t.compute_jacobian(x.copy()) if has_jac else None
+                    Ji = t.compute_jacobian_inverse(np.asarray(z).copy()) if has_jac else None
+                    bound = C.TWO30 if "PCA" in spec_names(spec) else C.TWO40
+                    line = f"tr pipe={pipe} D={';'.join(','.join(r) for r in case['X'])} x={C.rvec(x)}"
+                    corr.add(line, C.tr_compare(z, xb, J, Ji, bound), {"stream": "transformer", "case": case, "what": tr_tag_of(spec)})
+        except Exception as e:  # noqa: BLE001
+            if res is not None:
+                res.notes.append(f"could not build the protocol line of a transformer case: {e!r}")
     if has_jac and not bad:
         try:
             P = np.stack(pts[:3])
@@ -1021,14 +1105,14 @@ def load_corpus() -> list[dict[str, Any]]:
     return out
 
 
-def run_reg_cases(res: Result, cases, in_scope: bool = True) -> None:
+def run_reg_cases(res: Result, cases, in_scope: bool = True, corr: C.Corr | None = None) -> None:
     for case in cases:
         res.evaluations += 1
         tag = reg_tag(case)
         res.count("reg:" + tag)
         res.count("reg-tr:" + tr_tag(case))
         res.count(f"reg-dims:{sum(s for _, s in case['in'])}x{sum(s for _, s in case['out'])}")
-        bad = check_reg(case, res)
+        bad = check_reg(case, res, corr=corr)
         res.nontrivial(json.dumps({k: case[k] for k in ("algo", "opts", "in", "out", "tr", "X")}, sort_keys=True, default=str))
         res.sample({"stream": "regressor", "algo": tag, "transformers": tr_tag(case), "n_learn": len(case["X"]), "violations": [k for k, _ in bad]})
         for key, msg in bad:
@@ -1045,12 +1129,12 @@ def run_reg_cases(res: Result, cases, in_scope: bool = True) -> None:
             res.traces_validated += 1
 
 
-def run_tr_cases(res: Result, cases) -> None:
+def run_tr_cases(res: Result, cases, corr: C.Corr | None = None) -> None:
     for case in cases:
         res.evaluations += 1
         tag = tr_tag_of(case["spec"])
         res.count("tr:" + tag)
-        bad = check_tr(case, res)
+        bad = check_tr(case, res, corr=corr)
         res.nontrivial(json.dumps(case, sort_keys=True))
         res.sample({"stream": "transformer", "spec": case["spec"], "n_fit": len(case["X"]), "violations": [k for k, _ in bad]})
         for key, msg in bad:
@@ -1063,46 +1147,283 @@ def run_tr_cases(res: Result, cases) -> None:
             res.traces_validated += 1
 
 
+# --------------------------------------------------------------------------- kernel stream
+
+PYTH = [Fraction(3, 4), Fraction(4, 3), Fraction(5, 12), Fraction(8, 15), Fraction(12, 5), Fraction(15, 8), Fraction(7, 24), Fraction(0)]
+
+
+def mp_kernel(kernel: str):
+    """SciPy's kernel definitions (documentation of scipy.interpolate.Rbf), in mpmath."""
+    import mpmath as mp
+
+    return {
+        "multiquadric": lambda r, e: mp.sqrt((r / e) ** 2 + 1),
+        "inverse_multiquadric": lambda r, e: 1 / mp.sqrt((r / e) ** 2 + 1),
+        "gaussian": lambda r, e: mp.exp(-((r / e) ** 2)),
+        "linear": lambda r, e: r,
+        "cubic": lambda r, e: r**3,
+        "quintic": lambda r, e: r**5,
+        "thin_plate": lambda r, e: r**2 * mp.log(r),
+    }[kernel]
+
+
+def run_kernel_stream(res: Result, rng: common.Rng, corr: C.Corr, n_per_kernel: int, suspects: set[str]) -> None:
+    import mpmath as mp
+    from gemseo.mlearning.regression.algos.rbf import RBFRegressor
+    from scipy.interpolate import Rbf
+
+    mp.mp.dps = 60
+    D = RBFRegressor.RBFDerivatives
+    tol = float(D.TOL)
+    for kernel in L.KERNELS:
+        der = getattr(D, f"der_{kernel}")
+        phi = mp_kernel(kernel)
+        for it in range(n_per_kernel):
+            d = rng.pick([1, 2, 3])
+            eps = rng.pick([Fraction(1, 2), Fraction(3, 4), Fraction(1), Fraction(5, 4), Fraction(3, 2), Fraction(2)])
+            while True:
+                x = [dy(rng, -2, 2, 16) for _ in range(d)]
+                c = [dy(rng, -2, 2, 4) for _ in range(d)]
+                q2 = sum((a - b) ** 2 for a, b in zip(x, c))
+                if q2 >= Fraction(1, 64):
+                    break
+            diffs = np.array([float(a - b) for a, b in zip(x, c)])
+            dist = float(np.linalg.norm(diffs))
+            real = np.asarray(der(diffs, dist, float(eps)), dtype=float)
+            res.count(f"kernel:{kernel}")
+            ctx = {"stream": "kernel", "kernel": kernel, "what": f"der_{kernel}", "x": [rr(v) for v in x], "c": [rr(v) for v in c], "eps": rr(eps)}
+            for j in range(d):
+                val = float(real[j])
+                # (a) the translated formula, evaluated by the Lean driver in Float
+                corr.add(
+                    f"der k={kernel} v={C.bits(diffs[j])},{C.bits(dist)},{C.bits(float(eps))},{C.bits(tol)}",
+                    (lambda v: lambda ans: None if (ans.isdigit() and C.frac_close([C.unbits(ans)], [v], C.TWO40)) else f"translated formula gives {C.unbits(ans) if ans.isdigit() else ans}, der_{kernel} returned {v}")(val),
+                    {**ctx, "what": f"translation-of-der_{kernel}", "component": j},
+                )
+                # (b) the verified symbolic derivative of SciPy's kernel along coordinate j
+                s_other = q2 - (x[j] - c[j]) ** 2
+                corr.add(
+                    f"dphi k={kernel} v={C.bits(float(x[j]))},{C.bits(float(c[j]))},{C.bits(float(s_other))},{C.bits(float(eps))}",
+                    (lambda v: lambda ans: None if (ans.isdigit() and C.frac_close([C.unbits(ans)], [v], C.TWO30)) else f"verified derivative of the SciPy kernel is {C.unbits(ans) if ans.isdigit() else ans}, der_{kernel} returned {v}")(val),
+                    {**ctx, "component": j},
+                )
+                # (c) independent reference: mpmath derivative of t -> phi(sqrt((t-c_j)^2+s))
+                ref = mp.diff(lambda t: phi(mp.sqrt((t - mp.mpf(c[j].numerator) / c[j].denominator) ** 2 + mp.mpf(s_other.numerator) / s_other.denominator), mp.mpf(eps.numerator) / eps.denominator), mp.mpf(x[j].numerator) / x[j].denominator)
+                res.evaluations += 1
+                if not C.frac_close([float(ref)], [val], C.TWO30):
+                    suspects.add(kernel)
+                    res.notes.append(f"der_{kernel}({diffs.tolist()}, {dist}, eps={float(eps)})[{j}] = {val} but the derivative of the SciPy kernel is {float(ref)}")
+            # SciPy's kernel itself (trusted definition, sampled): phi(r) of the real Rbf object vs model and mpmath
+            rbf = Rbf(np.array([0.0, dist]), np.array([0.0, 1.0]), function=kernel, epsilon=float(eps))
+            phi_scipy = float(rbf.A[0, 1])
+            res.evaluations += 1
+            if not C.frac_close([float(phi(mp.mpf(dist), mp.mpf(float(eps))))], [phi_scipy], C.TWO30):
+                res.violate("correspondence", f"scipy-kernel:{kernel}", f"scipy.interpolate.Rbf kernel {kernel} is not the documented function at r={dist}, eps={float(eps)}", {"kernel": kernel, "r": dist, "eps": float(eps), "scipy": phi_scipy})
+            corr.add(
+                f"phi k={kernel} v={C.bits(dist)},{C.bits(float(eps))}",
+                (lambda v: lambda ans: None if (ans.isdigit() and C.frac_close([C.unbits(ans)], [v], C.TWO30)) else f"model kernel gives {ans}, SciPy {v}")(phi_scipy),
+                {**ctx, "what": f"scipy-kernel-{kernel}"},
+            )
+        # exact stream: Pythagorean inputs, the formula evaluated in exact rational arithmetic
+        for ratio in PYTH:
+            e = rng.pick([Fraction(1, 2), Fraction(1), Fraction(2), Fraction(4)])
+            r = ratio * e
+            xx = r * rng.pick([Fraction(1), Fraction(-1, 2), Fraction(1, 4), Fraction(0)])
+            try:
+                val = float(np.asarray(der(np.array([float(xx)]), float(r), float(e)), dtype=float)[0])
+            except Exception:  # noqa: BLE001
+                continue
+            if not math.isfinite(val):
+                continue
+            corr.add(
+                f"derq k={kernel} v={rr(xx)},{rr(r)},{rr(e)},{rat(tol)}",
+                (lambda v: lambda ans: "skip" if ans == "_" else (None if C.frac_close([Fraction(ans)], [v], C.TWO40) else f"exact value of the translated formula {ans}, der_{kernel} returned {v}"))(val),
+                {"stream": "kernel", "kernel": kernel, "what": f"translation-of-der_{kernel}", "x": rr(xx), "r": rr(r), "eps": rr(e)},
+            )
+
+
+def search_reg_failure(res: Result, rng: common.Rng, algo: str, kernel: str | None, n: int, near: dict | None = None) -> bool:
+    """Failing-input search: neighbours of a case, then fresh cases biased to the algorithm/kernel involved."""
+    cands = []
+    if near is not None:
+        cands += list(reg_candidates(near))[:25]
+    for _ in range(n):
+        c = gen_reg_case(rng, algo, kernel=kernel)
+        if kernel:
+            c["tr"] = {} if rng.chance(0.7) else c["tr"]
+        cands.append(c)
+    for cand in cands:
+        try:
+            bad = check_reg(cand, None, deep=False)
+        except Exception:  # noqa: BLE001
+            continue
+        res.evaluations += 1
+        res.count("failing-input-search")
+        for key, msg in bad:
+            small = shrink_reg(cand, key)
+            msgs = [m for k, m in check_reg(small, None) if k == key]
+            res.violate("oracle", key, (msgs or [msg])[0], {"stream": "regressor", "case": small})
+            return True
+    return False
+
+
+def search_tr_failure(res: Result, rng: common.Rng, near: dict) -> bool:
+    cands = [near]
+    for _ in range(40):
+        c = gen_tr_case(rng)
+        if set(spec_names(c["spec"])) & set(spec_names(near["spec"])):
+            cands.append(c)
+    for cand in cands:
+        try:
+            bad = check_tr(cand, None)
+        except Exception:  # noqa: BLE001
+            continue
+        res.evaluations += 1
+        res.count("failing-input-search")
+        for key, msg in bad:
+            small = shrink_tr(cand, key)
+            res.violate("oracle", key, msg, {"stream": "transformer", "case": small})
+            return True
+    return False
+
+
+_TRANSLATION: dict[str, Any] = {}
+
+
+def pre_lean(ctx) -> None:
+    """Translator: regenerate lean/GemseoVerif/Gen/C18Kernels.lean from the der_* formulas of the imported gemseo."""
+    from harness import translate_c18
+
+    src = translate_c18.rbf_source_file()
+    table = translate_c18.regenerate(src, common.LEAN_DIR)
+    _TRANSLATION.clear()
+    _TRANSLATION.update(table)
+    _TRANSLATION["_source"] = {"value": str(src)}
+
+
 def run(ctx) -> Result:
     res = Result(PID)
     res.rule = (
         "regressor cases: algorithm x settings x variable layout x transformers (group/variable/default/none, scalers, PCA, "
-        "pipelines) x dyadic learning sets (4-16 points, 1-3 inputs, 1-3 outputs) x 2-3 query points away from the learning "
-        "points; transformer cases: spec x fitting data (incl. constant features) x points; a case is non-trivial when it "
-        "trains a model / fits a transformer; distinct by (algorithm, settings, layout, transformers, learning inputs)"
+        "pipelines) x dyadic learning sets (4-16 points, 1-3 inputs, 1-3 outputs, whole dataset or a subset of samples) x 2-3 "
+        "query points away from the learning points; transformer cases: spec x fitting data (incl. constant features) x points; "
+        "kernel cases: kernel x point x centre x epsilon; a case is non-trivial when it trains a model / fits a transformer / "
+        "evaluates a kernel derivative off the centre; distinct by (algorithm, settings, layout, transformers, learning inputs)"
     )
     res.assumptions = [
-        "rounded stream: Jacobians are compared with Richardson-extrapolated centred differences of predict (steps 2^-7..2^-9) within 2^-20*max(1,|D|); a point is skipped (counted as fd-unreliable-skipped) when two extrapolations disagree by more than 2^-24*max(1,|D|)",
-        "query points keep a distance >= 1/8 from the learning points (kernels r, r^3 are not smooth at their centre)",
+        "rounded stream: Jacobians are compared with Richardson-extrapolated centred differences of predict (steps 2^-7..2^-9) within 2^-20*max(1,|D|) (2^-16 for the OpenTURNS-based PCE and GP regressors); a point is skipped (counted as fd-unreliable-skipped) when two extrapolations disagree by more than 2^-24*max(1,|D|)",
+        "ill-conditioned fits are skipped (counted): the prediction must be stable to 2^-34 under a 2^-46 relative perturbation of the query point; the fits themselves are not modelled",
+        "query points keep a distance >= 1/8 from the learning points (kernels r, r^3 are not smooth at their centre); for hard mixtures of experts the difference stencil must stay inside one cluster",
         "interpolation residual bound 2^-20*max(1,|y|) on well separated dyadic learning points",
+        "power transforms (scikit-learn, numerical inversion): inverse_transform(transform(x)) within 2^-12; no Jacobian is offered by them",
+        "Lean model vs code: exact rational arithmetic of the model vs floats of the code within 2^-40 (affine paths) / 2^-30 (PCA parameters, kernels, RBF networks)",
     ]
+    if not _TRANSLATION:
+        pre_lean(ctx)  # --no-lean runs: the driver still needs the generated kernels
+    refused = {k: v["refused"] for k, v in _TRANSLATION.items() if isinstance(v, dict) and "refused" in v}
+    res.extra["translator"] = {
+        "source": _TRANSLATION.get("_source", {}).get("value"),
+        "generated_sha256": _TRANSLATION.get("_sha256", {}).get("value"),
+        "formulas": {k: v.get("source") for k, v in _TRANSLATION.items() if isinstance(v, dict) and "source" in v},
+        "refused": refused,
+    }
+    for k, why in refused.items():
+        res.notes.append(f"translator refused der_{k} ({why}): no theorem for this kernel, correspondence and oracle only")
     rng = ctx.rng
-    corpus = load_corpus()
-    for entry in corpus:
+    corr = C.Corr()
+    build_err = C.ensure_gen_built()
+    use_driver = build_err is None
+    if not use_driver:
+        res.notes.append("the generated kernel module does not build; driver-based correspondence skipped: " + build_err[-400:])
+    audit_failed = ctx.audit is not None and not ctx.audit.ok
+    suspects: set[str] = set()
+
+    def on_mismatch(c: dict[str, Any], line: str, ans: str, why: str) -> bool:
+        if c.get("stream") == "kernel":
+            if c["what"].startswith(("translation-of", "scipy-kernel")):
+                return False  # translator / trusted kernel definition: not a defect of the code
+            suspects.add(c["kernel"])
+            return search_reg_failure(res, rng, "RBFRegressor", c["kernel"], 40)
+        if c.get("stream") == "regressor":
+            return search_reg_failure(res, rng, c["case"]["algo"], c["case"].get("opts", {}).get("function"), 30, near=c["case"])
+        if c.get("stream") == "transformer":
+            return search_tr_failure(res, rng, c["case"])
+        return False
+
+    # ---- corpus first
+    for entry in load_corpus():
         res.count("corpus")
         if entry.get("stream") == "regressor":
-            run_reg_cases(res, [entry["case"]])
+            run_reg_cases(res, [entry["case"]], corr=corr if use_driver else None)
         elif entry.get("stream") == "transformer":
-            run_tr_cases(res, [entry["case"]])
-    n_reg = 6000 if ctx.thorough else 600
-    n_tr = 6000 if ctx.thorough else 500
-    # every kernel x epsilon choice at least once, every run
+            run_tr_cases(res, [entry["case"]], corr=corr if use_driver else None)
+    # ---- kernels
+    if use_driver:
+        run_kernel_stream(res, rng, corr, 40 if ctx.thorough else 6, suspects)
+        corr.flush(res, on_mismatch)
+    n_reg = 6000 if ctx.thorough else 500
+    n_tr = 5000 if ctx.thorough else 400
+    # ---- every kernel and every algorithm at least once per run; more on suspects
     must = []
     for k in L.KERNELS:
         for _ in range(2):
             must.append(gen_reg_case(rng, "RBFRegressor", kernel=k))
     for k in L.CALLABLES:
         must.append(gen_reg_case(rng, "RBFRegressor", kernel=k))
-    for a in ("LinearRegressor", "PolynomialRegressor", "TPSRegressor", "RegressorChain", "MOERegressor", "PCERegressor", "OTGaussianProcessRegressor", "GaussianProcessRegressor"):
+    for a in sorted(set(REG_ALGOS)):
         must.append(gen_reg_case(rng, a))
-    run_reg_cases(res, must)
-    run_tr_cases(res, [gen_tr_case(rng) for _ in range(n_tr)])
-    t_end = ctx.deadline
+    run_reg_cases(res, must, corr=corr if use_driver else None)
+    # a kernel formula that no longer matches the verified derivative / whose theorem no longer builds:
+    # search for a concrete model whose Jacobian is wrong
+    broken = set(suspects)
+    if audit_failed:
+        text = " ".join(ctx.audit.problems)
+        broken |= {k for k in L.KERNELS if f"der_{k}" in text} or set(L.KERNELS)
+    for k in sorted(broken):
+        if not any(v.kind == "oracle" and v.key == f"jacobian:RBFRegressor[{k}]" for v in res.violations):
+            found = search_reg_failure(res, rng, "RBFRegressor", k, 60)
+            res.notes.append(f"failing-input search for kernel {k}: {'found' if found else 'nothing found'}")
+    # ---- transformers
+    tr_cases = [gen_tr_case(rng) for _ in range(n_tr)] + [gen_std_exact_case(rng) for _ in range(n_tr // 8)]
+    run_tr_cases(res, tr_cases, corr=corr if use_driver else None)
+    if use_driver:
+        corr.flush(res, on_mismatch)
+    # ---- regressors
     k = 0
-    while k < n_reg and time.time() < t_end:
-        run_reg_cases(res, [gen_reg_case(rng)])
-        k += 1
+    while k < n_reg and time.time() < ctx.deadline:
+        run_reg_cases(res, [gen_reg_case(rng) for _ in range(25)], corr=corr if use_driver else None)
+        if use_driver:
+            corr.flush(res, on_mismatch)
+        k += 25
     return res
+
+
+def gen_std_exact_case(rng: common.Rng) -> dict[str, Any]:
+    """Fitting data whose columns have a rational standard deviation (values a-d / a+d in equal numbers)."""
+    d = rng.pick([1, 2, 3])
+    n = rng.pick([4, 6, 8])
+    cols = []
+    for _ in range(d):
+        a = dy(rng, -2, 2, 4)
+        dd = rng.pick([Fraction(0), Fraction(1, 2), Fraction(1), Fraction(3, 4), Fraction(2)])
+        col = [a - dd] * (n // 2) + [a + dd] * (n // 2)
+        rng.shuffle(col)
+        cols.append(col)
+    X = [[cols[j][i] for j in range(d)] for i in range(n)]
+    spec = rng.pick(
+        [
+            ["StandardScaler", {}],
+            ["Pipeline", [["StandardScaler", {}], ["Scaler", {"offset": "1/2", "coefficient": "2"}]]],
+            ["Pipeline", [["MinMaxScaler", {}], ["StandardScaler", {}]]],
+            ["Pipeline", [["Scaler", {"offset": "-1", "coefficient": "1/2"}], ["StandardScaler", {}], ["MinMaxScaler", {}]]],
+        ]
+    )
+    return {
+        "kind": "std-exact",
+        "spec": spec,
+        "X": [[rr(v) for v in row] for row in X],
+        "q": [[rr(dy(rng, -2, 2, 16)) for _ in range(d)] for _ in range(2)],
+    }
 
 
 def replay(path: str) -> int:
